@@ -1,7 +1,7 @@
 """Built-in checks for polars."""
 
 import re
-from typing import Any, Iterable, Optional, TypeVar, Union
+from typing import Any, Iterable, Optional, Tuple, TypeVar, Union
 
 import polars as pl
 
@@ -178,6 +178,24 @@ def notin(data: PolarsData, forbidden_values: Iterable) -> pl.LazyFrame:
     )
 
 
+def _inline_flags(pattern: Union[str, re.Pattern]) -> Tuple[str, str]:
+    """Source of a pattern and the flags of a compiled pattern in inline form
+    (``re.compile("a", re.I)`` -> ``("(?i)", "a")``)."""
+    if not isinstance(pattern, re.Pattern):
+        return "", pattern
+    letters = "".join(
+        letter
+        for flag, letter in (
+            (re.IGNORECASE, "i"),
+            (re.MULTILINE, "m"),
+            (re.DOTALL, "s"),
+            (re.VERBOSE, "x"),
+        )
+        if pattern.flags & flag
+    )
+    return (f"(?{letters})" if letters else ""), pattern.pattern
+
+
 @register_builtin_check(
     error="str_matches('{pattern}')",
 )
@@ -191,9 +209,10 @@ def str_matches(
                 to access the dataframe is "dataframe" and column name using "key".
     :param pattern: Regular expression pattern to use for matching
     """
-    pattern = pattern.pattern if isinstance(pattern, re.Pattern) else pattern
+    flags, pattern = _inline_flags(pattern)
     # anchor the whole pattern (not just its first alternative) at the start
-    pattern = f"^(?:{pattern})"
+    # (of the string, also when "^" means "start of a line")
+    pattern = f"{flags}\\A(?:{pattern})"
     return data.lazyframe.select(
         pl.col(data.key).str.contains(pattern=pattern)
     )
@@ -213,9 +232,9 @@ def str_contains(
     :param pattern: Regular expression pattern to use for searching
     """
 
-    pattern = pattern.pattern if isinstance(pattern, re.Pattern) else pattern
+    flags, pattern = _inline_flags(pattern)
     return data.lazyframe.select(
-        pl.col(data.key).str.contains(pattern=pattern, literal=False)
+        pl.col(data.key).str.contains(pattern=flags + pattern, literal=False)
     )
 
 
